@@ -291,9 +291,8 @@ def oracle_e2e(ctx: Ctx, case):
     except Exception as e:
         fail(ctx, "prepend-initial", cw, "kalman_filter(prepend_initial=True) + simulate raises " + repr(e)[:200])
     # (6) deviation mode on data minus steady state = level results minus steady state
-    if unit:
-        return
-    xbar, ybar = ks.steady_logscale(mc)
+    # (with a unit root and drift the steady state is a time-varying path: `case_path`)
+    xpath, ypath = ks.case_path(case)
     c_lvl = dict(case); c_lvl["deviation"] = False
     c_dev = dict(case); c_dev["deviation"] = True
     try:
@@ -309,10 +308,10 @@ def oracle_e2e(ctx: Ctx, case):
     for step in ("predict_med", "update_med", "smooth_med"):
         for j in range(nx):
             key = ks.var_key(f"x{j}", mc["logx"][j])
-            if not iclose(ks.series_values(o_d[step], key, span), ks.series_values(o_l[step], key, span) - xbar[j], 1e-7):
+            if not iclose(ks.series_values(o_d[step], key, span), ks.series_values(o_l[step], key, span) - xpath[:, j], 1e-7):
                 fail(ctx, "e2e-deviation", cw, f"{step}[{key}]: deviation-mode result is not level result minus steady state")
             if mc["logx"][j] and not iclose(ks.series_values(o_d[step], f"x{j}", span),
-                                             ks.series_values(o_l[step], f"x{j}", span) / np.exp(xbar[j]), 1e-7):
+                                             ks.series_values(o_l[step], f"x{j}", span) / np.exp(xpath[:, j]), 1e-7):
                 fail(ctx, "e2e-deviation", cw, f"{step}[x{j}]: deviation-mode level is not level result / steady state")
         for nm in [f"e{j}" for j in range(len(mc["std_e"]))] + [f"w{j}" for j in range(len(mc["std_w"]))]:
             if step != "predict_med" and not iclose(ks.series_values(o_d[step], nm, span), ks.series_values(o_l[step], nm, span), 1e-7):
